@@ -7,8 +7,8 @@ STREAMS = {
     "vec": {"quick": 400, "thorough": 6000, "trivial": ["bad-op", "na", "ok"], "keep_ops": ["vals", "idx", "ev"]},
     # the same op language and driver as `cons`, another generator: dense gossip with one validator hidden for a few rounds,
     # which then catches up (delayed decisions, several frames decided by one multi-frame root, seals at frames 1-4)
-    "cons-hider": {"quick": 250, "thorough": 2500, "run_as": "cons", "trivial": ["bad-op", "na", "unknown-event"], "timeout": 3000, "keep_ops": ["vals", "seal", "inst"]},
-    "cons": {"quick": 300, "thorough": 1500, "trivial": ["bad-op", "na", "unknown-event"], "timeout": 3000, "keep_ops": ["vals", "seal", "inst"]},
+    "cons-hider": {"quick": 250, "thorough": 2500, "run_as": "cons", "trivial": ["bad-op", "na", "unknown-event"], "timeout": 3000, "keep_ops": ["vals", "seal", "inst", "noapply"]},
+    "cons": {"quick": 300, "thorough": 1500, "trivial": ["bad-op", "na", "unknown-event"], "timeout": 3000, "keep_ops": ["vals", "seal", "inst", "noapply"]},
 }
 
 _REF = ("Reference = lean/LachesisVerif/Spec/Lachesis.lean: an independent naive implementation of the Lachesis rules written from the "
